@@ -111,19 +111,30 @@ def upv_obligations(chk, tag="", consts=False):
                 new = it.call(GO, [sty, "WIRE_S"], {})
                 del outs[1:]
                 packed, want_wire = SObj(GS, {"_ty": sty, "_field_values": {"q": v}, "_frozen": False}), "OUT0"
+            used_before = v.fields["_used"]
+            reg_before = any(x is v for x in state.fields["unused_undroppable_objs"].values())
             r = it.call(upv, [packed, new, builder], {})
-            return r, v, new, state, want_wire
+            slot = packed.fields["_field_values"]["q"] if shape == "struct1" else v
+            return r, v, new, state, want_wire, slot, used_before, reg_before, GO
         paths = e.explore(t_upd)
 
-        def post_upd(p):
+        def post_upd(p, shape=shape):
             if p.kind != "return":
                 return z3.BoolVal(False)
-            r, v, new, state, want_wire = p.value
+            r, v, new, state, want_wire, slot, used_before, reg_before, GO = p.value
             reg = state.fields["unused_undroppable_objs"]
             v_reg = any(x is v for x in reg.values())
             new_reg = any(x is new for x in reg.values())
-            conc = r is True and v.fields["_wire"] == want_wire and v.fields["_used"] is None and new.fields["_used"] is not None and not new_reg
-            return z3.And(z3.BoolVal(conc), z3.BoolVal(v_reg) == z3.Not(dro))
+            common = r is True and new.fields["_used"] is not None and not new_reg
+            in_place = z3.And(z3.BoolVal(slot is v and v.fields["_wire"] == want_wire and v.fields["_used"] is None), z3.BoolVal(v_reg) == z3.Not(dro))
+            if shape != "struct1":
+                return z3.And(z3.BoolVal(common), in_place)
+            # a COPYABLE component of a struct (or list) is a value: the slot gets a fresh object carrying the wire
+            # handed back, and the old object — which an alias or an earlier read may still hold — is left exactly as it was
+            slot_reg = any(x is slot for x in reg.values())
+            replaced = z3.And(z3.BoolVal(slot is not v and isinstance(slot, SObj) and slot.cls is GO and slot.fields["_wire"] == want_wire and slot.fields["_used"] is None
+                                         and v.fields["_wire"] == "WIRE" and v.fields["_used"] is used_before and v_reg == reg_before), z3.BoolVal(slot_reg) == z3.Not(dro))
+            return z3.And(z3.BoolVal(common), z3.If(cop, replaced, in_place))
         chk.prove_paths(f"{tag}update_packed_value[{shape}]:handed-back-value-gets-the-new-wire/\\is-unused-again/\\registered-as-unused<=>not-droppable/\\the-carrier-is-consumed", paths, post_upd,
                         func=f"{UNP}:update_packed_value", replay=lambda m: {"script": REPLAY_LEAK, "input": {"program": PROG_LEAK_AFTER_BORROW}})
 
@@ -173,13 +184,15 @@ def upv_obligations(chk, tag="", consts=False):
             if p.kind != "return":
                 return z3.BoolVal(False)
             r, v, new, slots, kinds, tys, GO = p.value
-            ok = r is True and new.fields["_used"] is not None
+            conj = [z3.BoolVal(r is True and new.fields["_used"] is not None)]
             for i, (k_, sl, t_) in enumerate(zip(kinds, slots, tys)):
+                fresh = isinstance(sl, SObj) and sl.cls is GO and sl is not new and sl is not v and sl.fields["_ty"] is t_ and sl.fields["_wire"] == f"OUT{i}" and sl.fields["_used"] is None
                 if k_ == "obj":
-                    ok = ok and sl is v and v.fields["_wire"] == f"OUT{i}" and v.fields["_used"] is None
+                    # non-copyable: re-armed in place (other references stay valid); copyable: a fresh object in the slot, the old one untouched
+                    conj.append(z3.If(cop, z3.BoolVal(bool(fresh) and v.fields["_wire"] == "WIRE"), z3.BoolVal(sl is v and v.fields["_wire"] == f"OUT{i}" and v.fields["_used"] is None)))
                 else:
-                    ok = ok and isinstance(sl, SObj) and sl.cls is GO and sl is not new and sl.fields["_ty"] is t_ and sl.fields["_wire"] == f"OUT{i}" and sl.fields["_used"] is None
-            return z3.BoolVal(bool(ok))
+                    conj.append(z3.BoolVal(bool(fresh)))
+            return z3.And(*conj)
         chk.prove_paths(f"{tag}update_packed_value[{shape}]:a-plain-python-component-is-replaced-by-the-component-handed-back(its-type,its-wire,unused)/\\objects-get-their-own-wire", paths, post_c,
                         func=f"{UNP}:update_packed_value", replay=lambda m: {"script": REPLAY_UPV_CONST, "input": {}})
     # a TUPLE with a plain Python component inside a list: tuples are immutable, so the component cannot be
